@@ -184,9 +184,23 @@ def check(run: Run) -> None:
         run.ob("U5", "to_kelvin_quantity")
         sl = tq.slice(r, r.ast.value)
         calls = {tq.callee(node_of(tq.cfg, c) or r, c) for c in sl.call_nodes}
-        mult = [x for e in sl.exprs for x in ast.walk(e) if isinstance(x, ast.BinOp)]
-        if CEL + ".to_kelvin" not in calls or "units.kelvin" not in sl.attrs or len(mult) != 1 or not isinstance(mult[0].op, ast.Mult):
-            run.violate("U5", f"{tq.qual}:route", tq.mod, r.ast, "to_kelvin_quantity is not Quantity(to_kelvin(value) * units.kelvin)")
+        binops = [x for e in sl.exprs for x in ast.walk(e) if isinstance(x, ast.BinOp)]
+        qcalls = [c for c in sl.call_nodes if tq.callee(node_of(tq.cfg, c) or r, c) == QTY]
+        explicit_dim = False
+        from ..dim import Interp, guard_dimension
+        for qc in qcalls:
+            d = kw(qc, "dimension")
+            if d is not None and guard_dimension(Interp(w, w.env(CEL)).ev(d)) == dimension_table()["temperature"]:
+                explicit_dim = True
+        form_a = len(binops) == 1 and isinstance(binops[0].op, ast.Mult) and "units.kelvin" in sl.attrs  # to_kelvin(value) * units.kelvin
+        form_b = not binops and explicit_dim  # Quantity(to_kelvin(value), dimension=units.temperature)
+        if CEL + ".to_kelvin" not in calls or not qcalls or not (form_a or form_b):
+            run.violate("U5", f"{tq.qual}:route", tq.mod, r.ast, "to_kelvin_quantity does not wrap to_kelvin(value), unchanged, as a kelvin quantity")
+        run.ob("U5", "to_kelvin_quantity:zero-keeps-dimension")
+        if not explicit_dim:
+            run.violate("U5", f"{tq.qual}:zero-dimension", tq.mod, r.ast,
+                        "to_kelvin_quantity builds its Quantity without an explicit temperature dimension: at absolute zero `0 * kelvin` is the plain number 0, "
+                        "the quantity becomes dimensionless and from_kelvin_quantity(to_kelvin_quantity(Celsius(-273.15))) fails - the helpers are not mutual inverses there")
     fq = Fn(w, CEL, "from_kelvin_quantity")
     for r in fq.cfg.returns():
         run.ob("U5", "from_kelvin_quantity")
